@@ -32,10 +32,12 @@ def universes(tier, seed):
         out.append(("MULTI3", [("idx", 3, i) for i in U.catalogue("multi")], ("depth", 1, "few")))
         out.append(("K(n>4)", [("k", k) for k, n in K.items() if n.n > 4], ("depth", 1, "few")))
     else:
-        out.append(("K(|SD|<=5)", [("k", k) for k, n in K.items() if len(n.sd[0]) <= 5 and n.n <= 4], ("closure", "all")))
+        out.append(("K(|SD|<=3)", [("k", k) for k, n in K.items() if len(n.sd[0]) <= 3 and n.n <= 4], ("closure", "all")))
+        out.append(("K(|SD|4..5)", [("k", k) for k, n in K.items() if 4 <= len(n.sd[0]) <= 5 and n.n <= 4], ("closure", "few")))
         out.append(("K(rest)", [("k", k) for k, n in K.items() if len(n.sd[0]) > 5 or n.n > 4], ("depth", 2, "few")))
-        out.append((u2name + "(|SD|<=4)", [("idx", 2, i) for i in U2 if sd_size(("idx", 2, i)) <= 4], ("closure", "all")))
-        out.append((u2name + "(|SD|>4)", [("idx", 2, i) for i in U2 if sd_size(("idx", 2, i)) > 4], ("closure", "few")))
+        out.append((u2name + "(|SD|<=3)", [("idx", 2, i) for i in U2 if sd_size(("idx", 2, i)) <= 3], ("closure", "all")))
+        out.append((u2name + "(|SD|=4)", [("idx", 2, i) for i in U2 if sd_size(("idx", 2, i)) == 4], ("closure", "few")))
+        out.append((u2name + "(|SD|>4)", [("idx", 2, i) for i in U2 if sd_size(("idx", 2, i)) > 4], ("depth", 2, "few")))
         out.append(("F3c", [("idx", 3, i) for i in U.F3_indices(True)], ("depth", 1, "few")))
         out.append((f"F3c[{seed % 256}/256]", [("idx", 3, i) for i in U.shard(U.F3_indices(True), seed, 256)], ("depth", 2, "few")))
         out.append(("MULTI3", [("idx", 3, i) for i in U.catalogue("multi")], ("depth", 1, "few")))
